@@ -135,6 +135,29 @@ func runConc(args []string) {
 	}
 	var wg sync.WaitGroup
 	done := make(chan struct{})
+	// inserts of fresh ids only (mix 2): the number of documents never decreases, so a count read by a call lies between
+	// the inserts completed before the call started and the inserts started before it returned (real-time order)
+	var addsStarted, addsCompleted int64
+	var writersDone int32
+	if mix == 2 {
+		go func() {
+			for k := 0; atomic.LoadInt32(&writersDone) == 0; k++ {
+				lo := atomic.LoadInt64(&addsCompleted)
+				var got int64
+				what := "GetDocumentCount"
+				if k%2 == 0 && stats == 1 {
+					got, what = int64(c.ComputeStats().DocumentCount), "ComputeStats.DocumentCount"
+				} else {
+					got = int64(c.GetDocumentCount())
+				}
+				hi := atomic.LoadInt64(&addsStarted)
+				if got < lo || got > hi {
+					sanity.Store(fmt.Sprintf("%s returned %d although %d inserts had completed before the call and %d had started when it returned", what, got, lo, hi))
+				}
+				atomic.AddInt64(&calls, 1)
+			}
+		}()
+	}
 	for t := 0; t < threads; t++ {
 		wg.Add(1)
 		go func(t int) {
@@ -154,7 +177,9 @@ func runConc(args []string) {
 					md := []byte(fmt.Sprintf("{\"t\":%d,\"i\":%d}", t, i))
 					in := kvIn{0, id, hashBytes(md), vecHashF(v, quant)}
 					call := now()
+					atomic.AddInt64(&addsStarted, 1)
 					c.AddDocument(id, v, md)
+					atomic.AddInt64(&addsCompleted, 1)
 					everAdded.Store(id, true)
 					record(t, in, call, kvOut{ok: true})
 				case writer && r < 0.42:
@@ -227,7 +252,7 @@ func runConc(args []string) {
 			}
 		}(t)
 	}
-	go func() { wg.Wait(); close(done) }()
+	go func() { wg.Wait(); atomic.StoreInt32(&writersDone, 1); close(done) }()
 	select {
 	case <-done:
 	case <-time.After(time.Duration(timeout) * time.Second):
